@@ -536,18 +536,8 @@ Proof. induction 1 as [|x l Hx Hl IH]; [reflexivity|]. cbn [split_eq]. rewrite H
 
 Lemma equal_split_compile x : equal_split (compile x) = (None, compile x).
 Proof.
-  destruct x as [s|nm [d|]|nm args|c t e|a b t e|sc cs d]; try reflexivity.
-  - cbn [compile]. unfold equal_split. rewrite split_eq_noeq; [reflexivity|].
-    constructor; [reflexivity|]. constructor; [|constructor]. apply mkseq_noeq. apply map_compile_noeq.
-  - rewrite compile_if. unfold equal_split. rewrite split_eq_noeq; [reflexivity|].
-    constructor; [apply strip_ws_noeq, mkseq_noeq, first_of_noeq|].
-    constructor; [apply mkseq_noeq, map_compile_noeq|].
-    destruct e; [constructor; [apply mkseq_noeq, map_compile_noeq|constructor]|constructor].
-  - rewrite compile_ifeq. unfold equal_split. rewrite split_eq_noeq; [reflexivity|].
-    constructor; [apply mkseq_noeq, first_of_noeq|].
-    constructor; [apply mkseq_noeq, map_compile_noeq|].
-    constructor; [apply mkseq_noeq, map_compile_noeq|].
-    destruct e; [constructor; [apply mkseq_noeq, map_compile_noeq|constructor]|constructor].
+  (* equal_split only looks inside a plain sequence (NSeq); compile x is a single node, never an NSeq *)
+  destruct x as [s|nm [d|]|nm args|c t e|a b t e|sc cs d]; reflexivity.
 Qed.
 
 Lemma equal_split_body v : no_adj v = true -> equal_split (mkseq (map compile v)) = (None, mkseq (map compile v)).
